@@ -28,27 +28,29 @@ func Glob(pattern, input string, opts ...Option) bool {
 	}
 	i := 0
 	j := 0
-	asterisk := false
-	for i < len(pattern) {
-		if pattern[i] == '*' {
-			asterisk = true
+	// star is the index of the most recent '*' in pattern (-1 if none) and
+	// mark the input position it is currently assumed to extend to. On a
+	// mismatch the matcher goes back and lets that '*' take one more byte.
+	star := -1
+	mark := 0
+	for j < len(input) {
+		if i < len(pattern) && pattern[i] == '*' {
+			star = i
+			mark = j
 			i++
-		} else {
-			match := pattern[i] == input[j]
-			if !asterisk && !match {
-				return false
-			}
-			if match {
-				i++
-			}
-			if asterisk && match {
-				asterisk = false
-			}
+		} else if i < len(pattern) && pattern[i] == input[j] {
+			i++
 			j++
-		}
-		if j >= len(input) {
-			break
+		} else if star >= 0 {
+			mark++
+			i = star + 1
+			j = mark
+		} else {
+			return false
 		}
 	}
-	return i == len(pattern) && (asterisk || j == len(input))
+	for i < len(pattern) && pattern[i] == '*' {
+		i++
+	}
+	return i == len(pattern)
 }
